@@ -109,8 +109,13 @@ Fixpoint keyed_decode (nd : bool) (key : str -> list (str * str) -> str) (d : do
   : outcome val :=
   match t with
   | TBasic k name => decode_basic nd k name d
+  | TTextU _ true =>                         (* the palette's pointer-receiver TextUnmarshaler stores the text *)
+      match d with DStr s => Ok (VText s) | _ => Err 40 end
   | TPtr t' => omap VPtr (keyed_decode nd key d t')
-  | TSlice e _ =>
+  | TSlice e n =>
+      if netip e n then                      (* net.IP: a TextUnmarshaler whose kind is slice *)
+        match d with DStr s => parse_ip s | _ => Err 40 end
+      else
       match d with
       | DList l =>
           omap VList ((fix go (l : list doc) : outcome (list val) :=
@@ -204,6 +209,47 @@ with subst_fields (fs : fields) {struct fs} : fields :=
   | FCons n tags an t r => FCons n tags an (subst_ty t) (subst_fields r)
   end.
 
+(* ---- SetSliceMangler (ez wraps every file decoder with it): a set
+   map[K]struct{} is presented to the decoder as []K; the decoded list is
+   turned into the set (nil stays nil) ---- *)
+Definition is_unit_struct (t : ty) : bool := match t with TStruct FNil _ => true | _ => false end.
+
+Fixpoint setslice_ty (t : ty) {struct t} : ty :=
+  match t with
+  | TMap k v n => if is_unit_struct v then TSlice k [] else t
+  | TStruct fs n => TStruct (setslice_fields fs) n
+  | TPtr (TStruct fs n) => TPtr (TStruct (setslice_fields fs) n)
+  | TSlice (TStruct fs n) m => TSlice (TStruct (setslice_fields fs) n) m
+  | TArray k (TStruct fs n) => TArray k (TStruct (setslice_fields fs) n)
+  | _ => t
+  end
+with setslice_fields (fs : fields) {struct fs} : fields :=
+  match fs with
+  | FNil => FNil
+  | FCons n tags an t r => FCons n tags an (setslice_ty t) (setslice_fields r)
+  end.
+
+Fixpoint set_of_list (l : list val) : list (val * val) :=
+  match l with
+  | [] => []
+  | VStr k :: r => kv_ins k (VStruct []) (set_of_list r)
+  | x :: r => (x, VStruct []) :: set_of_list r          (* non-string keys: not generated *)
+  end.
+
+Fixpoint unset_ty (t : ty) (v : val) {struct t} : val :=
+  match t, v with
+  | TMap k e n, VList l => if is_unit_struct e then VMap (set_of_list l) else v
+  | TStruct fs _, VStruct vs => VStruct (unset_fields fs vs)
+  | TPtr (TStruct fs _), VPtr (VStruct vs) => VPtr (VStruct (unset_fields fs vs))
+  | TSlice (TStruct fs _) _, VList l => VList (map (fun x => match x with VStruct vs => VStruct (unset_fields fs vs) | _ => x end) l)
+  | _, _ => v
+  end
+with unset_fields (fs : fields) (vs : list val) {struct fs} : list val :=
+  match fs, vs with
+  | FCons _ _ _ t r, v :: vs' => unset_ty t v :: unset_fields r vs'
+  | _, _ => []
+  end.
+
 (* ---- the four decoders ---- *)
 Inductive format := FJson | FYaml | FToml | FCue.
 
@@ -226,3 +272,7 @@ Definition decode (f : format) (d : doc) (pfs : fields) : outcome (list val) :=
   | DMap kvs => generic_fields (lib_native_dur f) (fmt_tag f) kvs (translated f pfs)
   | _ => Err 43
   end.
+
+(* sourcewrap.NewTransformingDecoder(dec, &transform.SetSliceMangler{}) *)
+Definition decode_wrapped (f : format) (d : doc) (pfs : fields) : outcome (list val) :=
+  vs <- decode f d (setslice_fields pfs) ;; Ok (unset_fields pfs vs).
